@@ -662,3 +662,38 @@ Definition pstep {R} (parse : Z -> list N -> R) (s : pstate R) (e : nat * list N
 
 Definition prun {R} (parse : Z -> list N -> R) (s : pstate R) (es : list (nat * list N)) : pstate R :=
   fold_left (pstep parse) es s.
+
+(* ---------------------------------------------------------------------------------------- *)
+(* (5) scratch objects of the crypto helpers.  crypto/asymmetric_enc.go builds a NEW hash.Hash   *)
+(* (hash.New()) for every RSA-OAEP call; a hash.Hash is a stateful object (Reset / Write / Sum). *)
+(* [hid t] is the hasher caller t works on: the tree uses one per call (injective), a            *)
+(* package-level hasher per digest would be [fun _ => 0].  A Sum is recorded with the bytes the    *)
+(* hasher has absorbed (the digest is a function of them).                                         *)
+
+Inductive hop := HReset | HWrite (d : list N) | HSum.
+
+Definition hstate := ((nat -> list N) * list (nat * list N))%type.
+
+Definition hstep (hid : nat -> nat) (s : hstate) (e : nat * hop) : hstate :=
+  let '(h, res) := s in
+  match snd e with
+  | HReset => (upd h (hid (fst e)) [], res)
+  | HWrite d => (upd h (hid (fst e)) (h (hid (fst e)) ++ d), res)
+  | HSum => (h, res ++ [(fst e, h (hid (fst e)))])
+  end.
+
+Definition hrun (hid : nat -> nat) (s : hstate) (es : list (nat * hop)) : hstate :=
+  fold_left (hstep hid) es s.
+
+(* what every Sum must return, from the schedule alone: the caller's own writes since its Reset *)
+Fixpoint hexpect (es : list (nat * hop)) (acc : nat -> list N) : list (nat * list N) :=
+  match es with
+  | [] => []
+  | e :: es' =>
+      let t := fst e in
+      match snd e with
+      | HReset => hexpect es' (upd acc t [])
+      | HWrite d => hexpect es' (upd acc t (acc t ++ d))
+      | HSum => (t, acc t) :: hexpect es' acc
+      end
+  end.
